@@ -10,8 +10,11 @@ type string = String.t
 
 exception History_ends
 
+(* graph handles hold extended states (XJoin.v): the state of the model plus the list of vacant slots that
+   Sodg::join() leaves behind; every call goes through the x-operations, which reduce to the plain operations
+   as long as no join has happened (XJoinFacts.v) *)
 type ctx = {
-  gs : (string, sodg) Hashtbl.t;
+  gs : (string, xs) Hashtbl.t;
   images : (string, n list) Hashtbl.t;
   n_edges : nat;
 }
@@ -29,12 +32,23 @@ let rkind_of = function
   | k -> failwith ("bad range kind " ^ k)
 
 exception Model_panic
+
+(* extraction renames XJoin.x_data: Export.v has a record field of that name *)
+let x_data = x_data0
 exception Model_other of string
 
 let unwrap (o : 'a outcome) : 'a =
   match o with
   | Ok a -> a
-  | Panic _ -> raise Model_panic
+  | Panic k ->
+      (* diagnostics only (stderr): which kind of panic the model predicts; the comparison sees "PANIC" *)
+      if Sys.getenv_opt "MODELDRV_PKIND" <> None then
+        prerr_endline
+          ("pkind " ^ (match k with
+                       | PBoundary -> "boundary" | PStackFull -> "stackfull" | PMapFull -> "mapfull"
+                       | PUnderflow -> "underflow" | PUnwrapNone -> "unwrapnone" | PIndex -> "index"
+                       | PAssert -> "assert"));
+      raise Model_panic
   | OutOfFuel -> raise (Model_other "OUTOFFUEL")
   | Unmodelled -> raise (Model_other "UNMODELLED")
 
@@ -121,7 +135,7 @@ let lim = n_of_int 1048576
 let load ctx (img : n list) (h : string) : out =
   match decode lim ctx.n_edges img with
   | LOk g ->
-      Hashtbl.replace ctx.gs h g;
+      Hashtbl.replace ctx.gs h { xg = g; xh = [] };   (* a loaded map has no vacant slot (emap_build) *)
       Snap ("ok", h)
   | LErr -> Plain "err"
   | LPanic -> raise Model_panic
@@ -133,46 +147,46 @@ let step (ctx : ctx) (t : string array) : out =
   | None -> (
       match t.(0) with
       | "NEW" ->
-          Hashtbl.replace ctx.gs t.(1) (op_empty (id_of_string t.(2)));
+          Hashtbl.replace ctx.gs t.(1) (x_empty (id_of_string t.(2)));
           Snap ("ok", t.(1))
       | "ADD" ->
-          let g = unwrap (op_add (get ctx t.(1)) (id_of_string t.(2))) in
+          let g = unwrap (x_add (get ctx t.(1)) (id_of_string t.(2))) in
           Hashtbl.replace ctx.gs t.(1) g;
           Snap ("ok", t.(1))
       | "BIND" ->
           let g =
             unwrap
-              (op_bind ctx.n_edges (get ctx t.(1)) (id_of_string t.(2)) (id_of_string t.(3))
+              (x_bind ctx.n_edges (get ctx t.(1)) (id_of_string t.(2)) (id_of_string t.(3))
                  (label_in t.(4)))
           in
           Hashtbl.replace ctx.gs t.(1) g;
           Snap ("ok", t.(1))
       | "PUT" ->
-          let g = unwrap (op_put (get ctx t.(1)) (id_of_string t.(2)) (hex_in t.(3))) in
+          let g = unwrap (x_put (get ctx t.(1)) (id_of_string t.(2)) (hex_in t.(3))) in
           Hashtbl.replace ctx.gs t.(1) g;
           Snap ("ok", t.(1))
       | "DATA" ->
-          let g, r = unwrap (op_data (get ctx t.(1)) (id_of_string t.(2))) in
+          let g, r = unwrap (x_data (get ctx t.(1)) (id_of_string t.(2))) in
           Hashtbl.replace ctx.gs t.(1) g;
           Snap ((match r with None -> "none" | Some h -> "some " ^ hex_out h), t.(1))
       | "KID" ->
-          let r = unwrap (op_kid (get ctx t.(1)) (id_of_string t.(2)) (label_in t.(3))) in
+          let r = unwrap (x_kid (get ctx t.(1)) (id_of_string t.(2)) (label_in t.(3))) in
           Plain (match r with None -> "none" | Some v -> Printf.sprintf "some %d" (int_of_nat v))
       | "KIDS" ->
-          let e = unwrap (op_kids (get ctx t.(1)) (id_of_string t.(2))) in
+          let e = unwrap (x_kids (get ctx t.(1)) (id_of_string t.(2))) in
           Plain (Printf.sprintf "[%s]" (edges_out e))
       | "KEYS" ->
-          let k = op_keys (get ctx t.(1)) in
+          let k = x_keys (get ctx t.(1)) in
           Plain
             (Printf.sprintf "[%s]"
                (String.concat "," (List.map (fun v -> string_of_int (int_of_nat v)) k)))
       | "NEXT" ->
-          let g, r = unwrap (op_next_id (get ctx t.(1))) in
+          let g, r = unwrap (x_next_id (get ctx t.(1))) in
           Hashtbl.replace ctx.gs t.(1) g;
           Snap (string_of_int (int_of_nat r), t.(1))
       | "SNAP" -> Snap ("ok", t.(1))
       | "CLONE" ->
-          Hashtbl.replace ctx.gs t.(2) (op_clone (get ctx t.(1)));
+          Hashtbl.replace ctx.gs t.(2) (x_clone (get ctx t.(1)));
           Snap ("ok", t.(2))
       | "SLICE" ->
           let rej =
@@ -185,13 +199,13 @@ let step (ctx : ctx) (t : string array) : out =
           in
           let p a b l = not (List.exists (fun (a', b', l') -> a = a' && b = b' && label_eqb l l') rej) in
           let order x = x in
-          let ng = unwrap (op_slice_some ctx.n_edges order (get ctx t.(1)) (id_of_string t.(2)) p) in
+          let ng = unwrap (x_slice_some ctx.n_edges order (get ctx t.(1)) (id_of_string t.(2)) p) in
           Hashtbl.replace ctx.gs t.(3) ng;
           Snap ("ok", t.(3))
       | "MERGE" ->
           let g, r =
             unwrap
-              (op_merge ctx.n_edges (get ctx t.(1)) (get ctx t.(2)) (id_of_string t.(3))
+              (x_merge ctx.n_edges (get ctx t.(1)) (get ctx t.(2)) (id_of_string t.(3))
                  (id_of_string t.(4)))
           in
           Hashtbl.replace ctx.gs t.(1) g;
@@ -202,7 +216,7 @@ let step (ctx : ctx) (t : string array) : out =
                    "err " ^ String.concat "," (List.map (fun v -> string_of_int (int_of_nat v)) missed)),
               t.(1) )
       | "SAVE" ->
-          let img = encode (get ctx t.(1)) in
+          let img = x_encode (get ctx t.(1)) in
           Hashtbl.replace ctx.images t.(2) img;
           Plain (Printf.sprintf "ok %d %s" (List.length img) (hex_of_bytes img))
       | "LOAD" -> load ctx (Hashtbl.find ctx.images t.(1)) t.(2)
@@ -235,14 +249,17 @@ let step (ctx : ctx) (t : string array) : out =
                (String.concat "," (List.rev !panics)))
       | "CUTSAMPLE" -> Plain "UNMODELLED-LOAD"   (* sampled cuts of a large image: implementation + oracle only *)
       | "SCRIPT" ->
-          let g, r = unwrap (op_deploy ctx.n_edges (get ctx t.(1)) (text_arg t.(2))) in
+          let g, r = unwrap (x_deploy ctx.n_edges (get ctx t.(1)) (text_arg t.(2))) in
           Hashtbl.replace ctx.gs t.(1) g;
           Snap ((match r with Some c -> Printf.sprintf "ok %d" (int_of_nat c) | None -> "err"), t.(1))
-      | "XML" -> Plain (text_out (op_to_xml (get ctx t.(1))))
-      | "DOT" -> Plain (text_out (op_to_dot (get ctx t.(1))))
-      | "DEBUG" -> Plain (text_out (op_debug (get ctx t.(1))))
-      | "INSPECT" -> Plain (text_out (unwrap (op_inspect (get ctx t.(1)) (id_of_string t.(2)))))
-      | "VPRINT" -> Plain (text_out (unwrap (op_vprint (get ctx t.(1)) (id_of_string t.(2)))))
+      | "XML" -> Plain (text_out (x_to_xml (get ctx t.(1))))
+      | "DOT" -> Plain (text_out (x_to_dot (get ctx t.(1))))
+      | "DEBUG" -> Plain (text_out (x_debug (get ctx t.(1))))
+      (* None: the Err that inspect()/v_print() answer for a vacant slot *)
+      | "INSPECT" ->
+          Plain (match unwrap (x_inspect (get ctx t.(1)) (id_of_string t.(2))) with Some s -> text_out s | None -> "err")
+      | "VPRINT" ->
+          Plain (match unwrap (x_vprint (get ctx t.(1)) (id_of_string t.(2))) with Some s -> text_out s | None -> "err")
       | _ -> Plain "UNSUPPORTED")
 
 let ends_history_on_panic (op : string) : bool =
@@ -262,7 +279,7 @@ let run_history (n : int) (lines : string list) : unit =
          if Array.length t > 0 && t.(0).[0] <> '#' then
            match step ctx t with
            | Plain r -> Printf.printf "%s -> %s\n" t.(0) r
-           | Snap (r, h) -> Printf.printf "%s -> %s | %s\n" t.(0) r (snap_out (get ctx h))
+           | Snap (r, h) -> Printf.printf "%s -> %s | %s\n" t.(0) r (xsnap_out (get ctx h))
            | exception Model_panic ->
                Printf.printf "%s -> PANIC\n" t.(0);
                if ends_history_on_panic t.(0) then raise History_ends
